@@ -13,7 +13,7 @@ CONSTANTS
   MaxOps = 3
   Acts <- ActsAll
   AssignSkipsDelegated = FALSE
-  InitStates <- Inits01
+  InitStates <- InitsAll
 VIEW view
 INVARIANTS TypeOK Exact TokensAssigned DelegByHolder
 PROPERTIES AdminAuth AdminChange DelegAuth
